@@ -17,12 +17,18 @@ import (
 // pair is not one the class speaks about (the evaluation is then UNDECIDED).
 type Rel func(x, y ssa.Value) (sign int, ok bool)
 
+// CurrentEnv is the phi environment of the abstract run in progress (runs are
+// sequential); Rel callbacks that need phi resolution read it.
+var CurrentEnv map[*ssa.Phi]ssa.Value
+
 // AbstractResult is the outcome of one abstract run.
 type AbstractResult struct {
 	Ret   *ssa.Return
 	Bool  *bool  // result 0 evaluated as a boolean, if it is one
 	Const *int64 // result 0 evaluated as an integer constant, if it is one
 	Path  []int  // block indices visited
+	Value ssa.Value              // result 0 with the phis of the return block resolved along the path
+	Env   map[*ssa.Phi]ssa.Value // phi → incoming value on the evaluated path
 }
 
 // AbstractRun evaluates fn under rel. It fails on loops, on branches whose
@@ -37,6 +43,7 @@ func AbstractRun(fn *ssa.Function, rel Rel) (*AbstractResult, error) {
 	res := &AbstractResult{}
 	visits := map[*ssa.BasicBlock]int{}
 	env := map[*ssa.Phi]ssa.Value{}
+	CurrentEnv = env
 	var evalBool func(v ssa.Value, from *ssa.BasicBlock, at *ssa.BasicBlock) (bool, error)
 	evalBool = func(v ssa.Value, from, at *ssa.BasicBlock) (bool, error) {
 		switch x := v.(type) {
@@ -139,6 +146,7 @@ func AbstractRun(fn *ssa.Function, rel Rel) (*AbstractResult, error) {
 						v = r
 					}
 				}
+				res.Value, res.Env = v, env
 				if bv, err := evalBool(v, pred, b); err == nil {
 					res.Bool = &bv
 				}
@@ -154,3 +162,97 @@ func AbstractRun(fn *ssa.Function, rel Rel) (*AbstractResult, error) {
 	return nil, fmt.Errorf("step bound exceeded")
 }
 
+
+// ---------------------------------------------------------------------------
+// E9r — residue classes. Values are carried as a·q + b for one symbol
+// l = M·q + r (q ≥ 0, r fixed per class).
+
+// Lin is a·q + b.
+type Lin struct{ A, B int64 }
+
+// LinEval folds v to a linear form in q under "sym = M·q + r". env resolves
+// phis of an abstract run. ok=false when v leaves the fragment
+// (+, −, × const, / c and % c with c | M·gcd…, constants, conversions).
+func LinEval(v ssa.Value, sym ssa.Value, M, r int64, env map[*ssa.Phi]ssa.Value) (Lin, bool) {
+	switch x := v.(type) {
+	case *ssa.Phi:
+		if e, ok := env[x]; ok {
+			return LinEval(e, sym, M, r, env)
+		}
+		return Lin{}, false
+	case *ssa.Convert:
+		return LinEval(x.X, sym, M, r, env)
+	case *ssa.ChangeType:
+		return LinEval(x.X, sym, M, r, env)
+	}
+	if v == sym {
+		return Lin{M, r}, true
+	}
+	if n, ok := ConstInt(v); ok {
+		return Lin{0, n}, true
+	}
+	b, ok := v.(*ssa.BinOp)
+	if !ok {
+		return Lin{}, false
+	}
+	l, ok1 := LinEval(b.X, sym, M, r, env)
+	rr, ok2 := LinEval(b.Y, sym, M, r, env)
+	if !ok1 || !ok2 {
+		return Lin{}, false
+	}
+	switch b.Op {
+	case token.ADD:
+		return Lin{l.A + rr.A, l.B + rr.B}, true
+	case token.SUB:
+		return Lin{l.A - rr.A, l.B - rr.B}, true
+	case token.MUL:
+		if l.A == 0 {
+			return Lin{rr.A * l.B, rr.B * l.B}, true
+		}
+		if rr.A == 0 {
+			return Lin{l.A * rr.B, l.B * rr.B}, true
+		}
+	case token.QUO:
+		// (a·q + b) / c with c | a and 0 ≤ b: = (a/c)·q + b/c  (non-negative operands)
+		if rr.A == 0 && rr.B > 0 && l.A%rr.B == 0 && l.A >= 0 && l.B >= 0 {
+			return Lin{l.A / rr.B, l.B / rr.B}, true
+		}
+	case token.REM:
+		if rr.A == 0 && rr.B > 0 && l.A%rr.B == 0 && l.A >= 0 && l.B >= 0 {
+			return Lin{0, l.B % rr.B}, true
+		}
+	}
+	return Lin{}, false
+}
+
+// LinRel builds a Rel for AbstractRun that orders linear forms for all q ≥ 0
+// (undecided when the order depends on q).
+func LinRel(sym ssa.Value, M, r int64, envOf func() map[*ssa.Phi]ssa.Value) Rel {
+	return func(x, y ssa.Value) (int, bool) {
+		a, ok1 := LinEval(x, sym, M, r, envOf())
+		b, ok2 := LinEval(y, sym, M, r, envOf())
+		if !ok1 || !ok2 {
+			return 0, false
+		}
+		d := Lin{a.A - b.A, a.B - b.B}
+		switch {
+		case d.A == 0:
+			return sign(d.B), true
+		case d.A > 0 && d.B > 0:
+			return 1, true
+		case d.A < 0 && d.B < 0:
+			return -1, true
+		}
+		return 0, false
+	}
+}
+
+func sign(x int64) int {
+	switch {
+	case x < 0:
+		return -1
+	case x > 0:
+		return 1
+	}
+	return 0
+}
